@@ -406,7 +406,7 @@ func checkTypeSumShape(c *core.Ctx) {
 	}
 	// S1: subsumption
 	for _, cs := range []struct {
-		r12, r21 absint.Val
+		r12, r21  absint.Val
 		want, why string
 	}{{isC, isnt, "t2", "t1 ⊆ t2 ⇒ the sum is t2"}, {isnt, isC, "t1", "t2 ⊆ t1 ⇒ the sum is t1"}, {isC, isC, "t2", "equal types ⇒ the sum is that type (idempotence)"}} {
 		outs, err := run("TypeIDInt", "TypeIDString", cs.r12, cs.r21, nil, nil)
